@@ -221,6 +221,7 @@ func totalWorker(args []string) error {
 		} else {
 			b = applyMut(base, muts[k].([]interface{}))
 		}
+		b = b[:len(b):len(b)] // no spare capacity: a read beyond the input cannot be hidden by the allocator's size classes
 		atomic.StoreInt64(&started, int64(cpuTime()))
 		atomic.StoreInt64(&cur, int64(k))
 		var e error
